@@ -35,7 +35,8 @@ LIDS = [1, 2, 3]
 # flags that are symbolic already in the quick tier (the thorough tier makes every flag of the kind symbolic)
 QUICK_FLAGS = {"succ.1.2", "succ.2.1", "succ.3.2", "succ.1.3", "succ.2.3",
                "signs.1.10", "signs.2.10", "signs.3.11", "signs.1.11", "signs.stop.1.10", "signs.stop.3.11",
-               "lights.1", "lights.2", "lights.3", "lights.stop.1", "lights.stop.3",
+               "lights.1", "lights.2", "lights.3", "lights.stop.1", "lights.stop.3", "lights.stop-sign-ref-none.3",
+               "signs.stop-light-ref-none.3",
                "intersection.in21.1", "intersection.in21.2", "intersection.st21.2", "intersection.st21.3",
                "intersection.cross.3", "intersection.in22.3"}
 TYPES = {1: {LaneletType.URBAN}, 2: {LaneletType.HIGHWAY}, 3: {LaneletType.URBAN, LaneletType.SIDEWALK}}
@@ -68,6 +69,9 @@ class Spec:
         # stop lines on lanelets 1 and 3, referencing a subset of what the lanelet references
         self.stop_sign = {i: {s for s in self.signs[i] if f(f"signs.stop.{i}.{s}", True)} for i in (1, 3)}
         self.stop_light = {i: {t for t in self.lights[i] if f(f"lights.stop.{i}", True)} for i in (1, 3)}
+        # programmatically built stop lines may leave a reference set at its default None
+        self.stop_sign_none = f("lights.stop-sign-ref-none.3", False)
+        self.stop_light_none = f("signs.stop-light-ref-none.3", False)
         g = lambda name, default: f("intersection." + name, default)
         self.inc = {21: dict(lanelets={i for i in LIDS if g(f"in21.{i}", i == 1)}, straight={i for i in LIDS if g(f"st21.{i}", i == 2)},
                              left={i for i in LIDS if g(f"le21.{i}", i == 3)}, right=set()),
@@ -81,8 +85,9 @@ class Spec:
             stop = None
             if i in (1, 3):
                 x0, y0 = GEOM[i]
-                stop = StopLine(np.array([x0 + 9.0, y0 - 1.5]), np.array([x0 + 9.0, y0 + 1.5]), LineMarking.SOLID,
-                                set(self.stop_sign[i]), set(self.stop_light[i]))
+                sref = None if (i == 3 and self.stop_sign_none and not self.stop_sign[i]) else set(self.stop_sign[i])
+                lref = None if (i == 3 and self.stop_light_none and not self.stop_light[i]) else set(self.stop_light[i])
+                stop = StopLine(np.array([x0 + 9.0, y0 - 1.5]), np.array([x0 + 9.0, y0 + 1.5]), LineMarking.SOLID, sref, lref)
             kw = dict(predecessor=sorted(self.pred[i]), successor=sorted(self.succ[i]), lanelet_type=set(TYPES[i]),
                       traffic_signs=set(self.signs[i]), traffic_lights=set(self.lights[i]), stop_line=stop)
             if self.adj_left[i] is not None:
